@@ -58,6 +58,10 @@ func main() {
 		dumpConstants(prog)
 		return
 	}
+	if *dump == "typedefs" {
+		dumpTypeDefs(prog)
+		return
+	}
 	if *dump != "" {
 		doDump(prog, *dump)
 		return
